@@ -39,3 +39,15 @@ func VSdfFilterAttrs(i *ie.IE, srcIf uint8) ([]byte, error) {
 	_, err = al.Encode(b)
 	return b, err
 }
+
+// VPdiAttrs returns the encoded PDI attributes the driver builds for a PDI IE.
+func VPdiAttrs(i *ie.IE) ([]byte, error) {
+	g := &Gtp5g{log: logger.FwderLog.WithField("verif", "pdi")}
+	al, err := g.newPdi(i)
+	if err != nil {
+		return nil, err
+	}
+	b := make([]byte, al.Len())
+	_, err = al.Encode(b)
+	return b, err
+}
